@@ -51,6 +51,13 @@ def _run_variant(args) -> Dict[str, Any]:
 
     mod = load_rules(prop)
     overlay: Dict[str, str] = {}
+    if kind == "sweep":
+        from . import sweeps
+
+        overlay = sweeps.SWEEPS[name](root)
+        edits = []
+        kind = "neutral"
+        name = f"whole-tree sweep: {name}"
     for edit in edits:
         file, old, new = edit[0], edit[1], edit[2]
         every = len(edit) > 3 and edit[3] == "all"
@@ -87,6 +94,10 @@ def run(prop: str, mod, root: str, baseline_findings, jobs: int = 16) -> Dict[st
     for n in getattr(cat, "NEUTRALS", []):
         name, edits, _ = _norm(n, neutral=True)
         tasks.append((prop, root, "neutral", name, edits, None))
+    from . import sweeps
+
+    for sname in sweeps.SWEEPS:
+        tasks.append((prop, root, "sweep", sname, [], None))
     results: List[Dict[str, Any]] = []
     if jobs > 1 and len(tasks) > 1:
         with ProcessPoolExecutor(max_workers=min(jobs, len(tasks))) as ex:
